@@ -29,12 +29,23 @@ def world_exe(world, backend='asm', shares=(4, 2, 4), flavour='rel'):
     return exe
 
 
+CLI_WRAPS = ['open', 'read', 'write', 'close', 'unlink', 'isatty', 'fopen', 'getrandom', 'ascon_pbkdf2']
+
+
+def build_cli(cfg):
+    objs = cfg.build_app('asconcrypt', ['-Dmain=asconcrypt_main']) + cfg.build_app('asconsum', ['-Dmain=asconsum_main'])
+    return cfg.build_harness('cli', [os.path.join(W, 'cli.cpp'), os.path.join(S, 'simos.c'), os.path.join(S, 'simrng.c')],
+                             link_objs=objs + cfg.lib_objs,
+                             ldflags=['-Wl,' + ','.join('--wrap=' + w for w in CLI_WRAPS)])
+
+
 RNG_SEAM = dict(extra_src=[os.path.join(S, 'simrng.c')], ldflags=['-Wl,--wrap=getrandom'])
 
 WORLDS = {
     'stream': {},
     'channel': dict(RNG_SEAM),
     'prng': dict(RNG_SEAM),
+    'cli': dict(build=build_cli),
 }
 
 
@@ -146,7 +157,32 @@ def check_C15(tier, seed):
     return o.finish()
 
 
+CLI_STUB = ['open/read/write/close/unlink/isatty behind -Wl,--wrap: in-memory file system in a shared arena, per-process fd table, '
+            'scripted EINTR/EAGAIN/short I/O/EIO/ENOSPC/EACCES and crash points',
+            'fopen() -> fopencookie streams over the same file system (asconsum); stdin/stdout replaced in the simulated process',
+            'getrandom() (tape, permanent failure)',
+            'ascon_pbkdf2 iteration count reduced by a link-time wrapper in most runs (knob.rounds; 0 = the real 8192)',
+            'each tool invocation is a fork()ed simulated process running the tool\'s real main()']
+
+
+def check_C19(tier, seed):
+    o = D.Outcome('C19', tier, seed)
+    o.components = dict(real=COMPONENTS_LIB['real'] + ['apps/asconcrypt/*.c and apps/asconsum/asconsum.c compiled from /repo with main renamed'],
+                        stub=CLI_STUB)
+    o.assumptions = ['transient faults (EINTR, EAGAIN, short reads/writes) must end in success-with-correct-output or in a loud failure without output',
+                     'hard faults (EIO, ENOSPC, failed open, failed entropy source), wrong password, any bit flip, truncation or extension must '
+                     'end in exit != 0 and no output file',
+                     'file names shorter than the .ascon suffix are decrypted with -o (the default naming is undefined for them; memory safety of that path is C12)',
+                     'asconsum check mode: names are drawn from an alphabet without leading spaces or ": "']
+    n = 8000 if tier == 'quick' else 150000
+    exe = world_exe('cli', 'asm', (4, 2, 4), 'rel')
+    o.add(D.run_batch(exe, n, tier, seed, label='cli@asm-rel', crash_prop='C12', chunk=50))
+    o.extra['distinct_states_measure'] = 'visited (tool, option flags, input class, exit class, hard-fault fired, transient fired) tuples'
+    return o.finish()
+
+
 CHECKS = {
+    'C19': check_C19,
     'C15': check_C15,
     'C02': check_C02,
     'C07': check_C07,
@@ -157,4 +193,5 @@ SETUP_BUILDS = [
     lambda: world_exe('stream'),
     lambda: world_exe('channel'),
     lambda: world_exe('prng'),
+    lambda: world_exe('cli'),
 ]
